@@ -7,6 +7,7 @@
     and a [..._refuted] theorem exhibits a witness inside the class. *)
 From Ferrous Require Import Base.Bytes Model.Resp Model.Types Model.Strings Model.Lists
   Spec.Collections Proofs.BytesFacts Proofs.ListsFacts.
+From Ferrous Require Proofs.StringsFacts.
 Open Scope Z_scope.
 
 (** ---------------------------------------------------------------- index forms *)
@@ -41,6 +42,21 @@ Example c03_ltrim_refuted_history :
   replies [["RPUSH"; "l"; "a"; "b"; "c"]; ["LTRIM"; "l"; "0"; "-100"]; ["LRANGE"; "l"; "0"; "-1"]]%string
   = [FInt 3; r_ok; FArray [b "a"]].
 Proof. exact ltrim_refuted_history. Qed.
+
+(** the same at the level of the engine functions: LRANGE answers the Redis window, LTRIM
+    keeps it and removes the key when it is empty *)
+Theorem c03_lrange_reply :
+  forall l start stop, lrange_known (len l) start stop = false ->
+  e_lrange start stop (Some (VList l)) = (r_bulks (redis_range l start stop), Keep).
+Proof. exact lrange_reply_spec. Qed.
+Theorem c03_ltrim_spec :
+  forall l start stop, lrange_known (len l) start stop = false ->
+  e_ltrim start stop (Some (VList l)) =
+  (r_ok, match redis_range l start stop with [] => Del | l' => Put (VList l') end).
+Proof. exact ltrim_spec. Qed.
+(** LRANGE k 0 -1 returns the whole list in order (the read used by the dataset dumps) *)
+Theorem c03_lrange_whole : forall l, list_slice l 0 (-1) = l.
+Proof. exact list_slice_all. Qed.
 
 (** LINDEX addressing equals the Redis rule for every list and every index
     (negative, zero, past either end). *)
@@ -96,7 +112,7 @@ Proof. exact exec_lists_atomic. Qed.
     members / fields unique. *)
 Theorem c03_step_preserves_wf :
   forall now d name parts oracle r d',
-  exec_lists now d name parts oracle = Some (r, d') -> wf_db d -> wf_db d'.
+  exec_lists now d name parts oracle = Some (r, d') -> wf_colls d -> wf_colls d'.
 Proof. exact exec_lists_wf. Qed.
 
 (** Hence after ANY history of family commands (any times, names, arguments, oracles)
@@ -111,6 +127,13 @@ Theorem c03_unique :
   forall cs k e, In (k, e) (d_data (c03_run empty_db cs)) ->
   match e_val e with VSet s => NoDup s | VHash h => NoDup (map fst h) | _ => True end.
 Proof. exact run_unique. Qed.
+
+(** The C01 invariant (unique keys in the dataset and in the deadline index) is preserved by
+    every command of this family too, so both invariants hold along mixed histories. *)
+Theorem c03_preserves_key_uniqueness :
+  forall now d name parts oracle r d',
+  exec_lists now d name parts oracle = Some (r, d') -> StringsFacts.wf_db d -> StringsFacts.wf_db d'.
+Proof. exact exec_lists_keys_wf. Qed.
 
 (** non-vacuity: a concrete history in which two collections empty out and vanish *)
 Example c03_wf_reachable :
@@ -271,3 +294,24 @@ Proof. exact hincrby_overflow_panics. Qed.
 Example c03_hincrby_refuted_history :
   replies [["HSET"; "h"; "n"; "9223372036854775807"]; ["HINCRBY"; "h"; "n"; "1"]]%string = [FInt 1; PANIC].
 Proof. exact hincrby_refuted_history. Qed.
+
+(** ---------------------------------------------------------------- panics (shared with C06) *)
+
+(** Of the 31 commands only LREM, SRANDMEMBER and HINCRBY can reach a panicking operation ... *)
+Theorem c03_panic_only_three_commands :
+  forall now d name parts oracle r d',
+  exec_lists now d name parts oracle = Some (r, d') -> panics r = true ->
+  name = bs "LREM" \/ name = bs "SRANDMEMBER" \/ name = bs "HINCRBY".
+Proof. exact exec_lists_panic_names. Qed.
+(** ... and exactly on the inputs of the three classes. *)
+Theorem c03_lrem_panics_iff :
+  forall c x cur, panics (fst (e_lrem c x cur)) = true <-> (exists l, cur = Some (VList l)) /\ c = isize_min.
+Proof. exact lrem_panics_iff. Qed.
+Theorem c03_hincrby_panics_iff :
+  forall f inc cur, panics (fst (e_hincrby f inc cur)) = true <->
+  exists h, cur = Some (VHash h) /\ hincrby_overflows h f inc = true.
+Proof. exact hincrby_panics_iff. Qed.
+Theorem c03_srandmember_panics_iff :
+  forall count oracle cur, panics (fst (e_srandmember count oracle cur)) = true <->
+  exists s n, cur = Some (VSet s) /\ s <> [] /\ count = Some n /\ n < 0 /\ srand_neg_ok n = false.
+Proof. exact srandmember_panics_iff. Qed.
